@@ -16,7 +16,7 @@
    choices of the code (vertex cover, order of the selected rows, pivoted QR factors) enter as
    witnesses expressed in row / column KEYS, never in positions of a sorted array.  The tie compares
    bonds and tables as multisets. *)
-From Coq Require Import List Arith Bool.
+From Coq Require Import List Arith Bool ZArith.
 From RV Require Import Base.CRing.
 Import ListNotations.
 
@@ -337,6 +337,48 @@ Definition swap_site (nprim : nat) (b2 b3 : bond) (ws : list wit) : option (bond
   | _ => None
   end.
 
+(* ------------------------------------------------------------------ bond dimensions *)
+(* the witness is a MINIMUM vertex cover (what bipartite_vertex_cover promises; property C20) *)
+Definition cover_size (rsel csel : list key) : nat := length rsel + length csel.
+(* graph-only sweeps: every step's witness is a vertex cover inside the rows / columns of its table *)
+Fixpoint graph_sweep (ws : list wit) : bool :=
+  match ws with [] => true | WG _ _ :: r => graph_sweep r | WQ _ _ _ _ _ :: _ => false end.
+Definition bond_dims (bs : list bond) : list nat := map (@length outop) bs.
+
+(* ------------------------------------------------------------------ quantum-number labels of the bonds
+   (one charge component; the code does the same for every component).  `pq o` = charge of primary
+   operator o.  As in construct_symbolic_mpo, the label of an out-op is the charge of its FIRST summand:
+   `mpoqn[j] = [out_op[0].qn for out_op in out_ops]`, `_compute_qn = in_ops[a][0].qn + primary_ops[o].qn`. *)
+Definition qn_outop (pq : nat -> Z) (lab : list Z) (oo : outop) : Z :=
+  match oo with
+  | p :: _ => match fst p with [a; o] => (nth a lab 0 + pq o)%Z | _ => 0%Z end
+  | [] => 0%Z
+  end.
+Definition bond_labels (pq : nat -> Z) (lab : list Z) (b : bond) : list Z := map (qn_outop pq lab) b.
+(* labels of bonds 1..n given the labels of bond 0 *)
+Fixpoint labels_chain (pq : nat -> Z) (lab : list Z) (bs : list bond) : list (list Z) :=
+  match bs with
+  | [] => []
+  | b :: r => let l1 := bond_labels pq lab b in l1 :: labels_chain pq l1 r
+  end.
+(* qntot = label of the single operator of the last bond (then overwritten by 0 in mpoqn) *)
+Definition qntot_of (pq : nat -> Z) (bs : list bond) : Z :=
+  nth 0 (last (labels_chain pq [0%Z] bs) [0%Z]) 0%Z.
+(* total charge of a string of primary operators *)
+Definition charge (pq : nat -> Z) (k : key) : Z := fold_right (fun o acc => (pq o + acc)%Z) 0%Z k.
+(* every selected column keeps at least one entry (its complementary operator is not empty; otherwise
+   `out_op[0]` of the code raises) *)
+Definition cols_nonempty (t : table) (rsel csel : list key) : bool :=
+  forallb (fun c => existsb (fun x => keqb (ck x) c && negb (memb (rk x) rsel)) t) csel.
+
+(* run-time check of the hypotheses of mpo_qn_labels along a graph sweep *)
+Fixpoint qn_sweepb (ws : list wit) (t : table) : bool :=
+  match ws with
+  | [] => true
+  | WG rs cs :: r => subsetb rs (map rk t) && cols_nonempty t rs cs && qn_sweepb r (snd (decompose_graph t rs cs))
+  | WQ _ _ _ _ _ :: _ => false
+  end.
+
 End SymMpo.
 
 
@@ -373,7 +415,8 @@ Definition tie_graph (nsite : nat) (idlab : list elem) (terms : list (list elem 
   let raw := raw_table GiRing gi_zero tt const (seq 0 nsite) in
   let fastp := match t0 with [_] => true | _ => false end in
   let res := sweep GiRing gi_zero ws (extend GiRing t0) in
-  [b2z fastp; b2z (sweep_okb GiRing gi_zero ws (extend GiRing t0)); b2z (final_okb GiRing gi_zero (snd res))]
+  [b2z fastp; b2z (sweep_okb GiRing gi_zero ws (extend GiRing t0)); b2z (final_okb GiRing gi_zero (snd res));
+   b2z (qn_sweepb GiRing ws (extend GiRing t0))]
   ++ enc_bonds (match construct GiRing gi_zero tt const (seq 0 nsite) ws with Some bs => bs | None => [] end)
   ++ enc_tabs (sweep_tables GiRing gi_zero ws (extend GiRing t0))
   ++ enc_tab (coeff_diff GiRing gi_zero impl_bonds cscale raw)
@@ -413,3 +456,9 @@ Definition tie_swap (nprim : nat) (b2 b3 : bond GiRing) (ws : list (wit GiRing))
   | Some (nb2, nb3) => 1%Z :: enc_bond nb2 ++ enc_bond nb3
   | None => [0%Z]
   end.
+
+(* labels of all bonds (one charge component) + qntot, computed from out-op lists *)
+Definition tie_qn (pql : list Z) (bs : list (bond GiRing)) : list Z :=
+  let pq := fun o => nth o pql 0%Z in
+  let ls := labels_chain GiRing pq [0%Z] bs in
+  qntot_of GiRing pq bs :: Z.of_nat (length ls) :: flat_map (fun l => Z.of_nat (length l) :: l) ls.
